@@ -125,6 +125,15 @@ func c19Scope(r *rand.Rand, sc *gen.Scope, cs *canaries) []string {
 	if gen.Chance(r, 0.3) {
 		set("t", str().Mark(c19Mark))
 	}
+	// objects whose attribute NAMES are secrets (built from marked keys): whole
+	// object marked, with exactly one and with several attributes, and nested
+	{
+		k1, k2, k3 := newCanaryStr(r), newCanaryStr(r), newCanaryStr(r)
+		cs.strs = append(cs.strs, k1, k2, k3)
+		set("okey", cty.ObjectVal(map[string]cty.Value{k1: cty.True}).Mark(c19Mark))
+		set("okeys", cty.ObjectVal(map[string]cty.Value{k2: cty.True, k3: cty.NumberIntVal(1)}).Mark(c19Mark))
+		set("onest", cty.ObjectVal(map[string]cty.Value{"auth": cty.ObjectVal(map[string]cty.Value{k1: cty.NumberIntVal(1)}).Mark(c19Mark)}))
+	}
 	return carriers
 }
 
@@ -332,6 +341,9 @@ var c19Directed = []string{
 	`s ? 1 : 2`, `n ? 1 : 2`, `lst ? 1 : 2`, `{a = s}.b`, `[s][1]`, `{(n) = 1}.x`, `[for v in lst: v][5]`,
 	`null + n`, `s == 1 ? nul.x : 0`, `tolist_missing(s)`, `upper(s, s)`, `upper()`, `fail(s)`, `coalesce(nul, nul)`,
 	`lst[s][n]`, `obj.a.b`, `obj.b.c`, `obj.c[s]`, `tup[0].x`, `tup[1][0]`, `st[0]`, `st[s]`, `st.foo`,
+	`okey.nope`, `okey + 1`, `"${okey}"`, `"x${okey}"`, `[for v in [1]: v if okey]`, `okeys.nope`, `okeys[0]`, `onest.auth.nope`, `onest + 1`, `upper(okey)`, `okey ? 1 : 2`, `okey && true`,
+	`f ? {auth = {(s) = 1}} : {auth = {zz = "x", q = [1]}}`, `f ? [{(s) = 1}] : [{b = "x", c = [1]}]`, `f ? {a = {b = {(s) = [1]}}} : {a = {b = {c = "x", d = 1}}}`, `true ? {x = okey} : {x = {q = [1], r = 2}}`,
+	`true ? {x = [okey]} : {x = [{q = [1]}]}`, `f ? onest : {auth = {q = [1], r = "x"}}`, `f ? [onest.auth] : [{q = [1]}]`, `true ? {(s) = [1]} : {other = "x"}`,
 	`"${s}" + 1`, `"${n}x" * 2`, `("${n}") + s`, `upper("${n}") - 1`, `{(upper(s)) = 1}["x"]`, `{"${s}" = 1}.nope`,
 }
 
